@@ -335,6 +335,8 @@ def gc_spec():
 
 
 def run(tier, seed, only=None):
+    import os as _os
+    _os.environ.setdefault('VERIF_CROSS', '1')        # every obligation-level query of this check is re-decided by cvc5
     report = common.Report('C10', tier, seed)
     ctx = common.Ctx()
     timeout_ms = 120000 if tier == 'quick' else 600000
